@@ -348,8 +348,17 @@ func FuncKey(fn *ssa.Function) string {
 	return fn.String()
 }
 
+// byte and rune are aliases: one dynamic type, one tag
 func (p *Program) typeID(t types.Type) int {
-	s := types.TypeString(t, nil)
+	s := aliasRE.ReplaceAllStringFunc(types.TypeString(t, nil), func(m string) string {
+		switch m {
+		case "byte":
+			return "uint8"
+		case "rune":
+			return "int32"
+		}
+		return "interface{}"
+	})
 	if id, ok := p.typeIDs[s]; ok {
 		return id
 	}
